@@ -397,6 +397,16 @@ def run_normalize(case, r):
     out2, ratio = fresh().normalize(img, ref, return_ratio=True)
     r.check(np.array_equal(out2.img, out.img) and np.allclose(ratio, np.asarray(fresh().integrate(ref)) / np.asarray(fresh().integrate(img)), rtol=rt, atol=0), cell, "return_ratio returns the same image and the ratio of the integrals")
     r.check((digest(img), digest(ref)) == before, cell + "/inputs", "normalize leaves both inputs unchanged")
+    # history on the geometry object `g`: the same reference OBJECT is updated in place by the caller
+    # (rescaled data) and used again; then another image against it; each result has the integral
+    # of the reference as it is at the time of the call
+    if dt == "float64":
+        for step, fac in enumerate((0.5, 4.0)):
+            ref.img[...] = ref.img * fac
+            outh = g.normalize(img, ref)
+            wanth = np.asarray(fresh().integrate(ref), dtype=float)
+            goth = np.asarray(fresh().integrate(outh), dtype=float)
+            r.check(goth.shape == wanth.shape and bool(np.all(np.abs(goth - wanth) <= rt * np.abs(wanth))), cell + "/history", "a geometry object that normalised against a reference before gives the current integral of that reference object after the caller changed its data", step=step, got=goth, want=wanth)
     r.nontriv(case)
     r.outcome((case, got.tolist()))
 
